@@ -52,7 +52,9 @@ pub fn property() -> Property {
         rule: "case = (f32|f64, metric L1/L2/Linf/Lp(1,1.5,2,3), point set of class lattice/all-equal/duplicates/clustered/uniform/collinear/rough \
                with n in 0..=60 (thorough: a quarter up to 400) and dim 1..=16, leaf size in {1,2,3,16,n,random}, 1..3 queries (stored point, lattice point, \
                midpoint, cell centre, far point; k in 0..=n+3; radius 0 / integer / exactly the distance to a stored point / between two consecutive \
-               distances / beyond the diameter)); plus an exhaustive stratum of all multisets over {0..3} (1-D) and subsets of the 3x3 grid (2-D). \
+               distances / distance to a stored point or to the point of rank 0..7 moved by -3..3 ulps / beyond the diameter; k additionally 2n, 2^20, 2^40, usize::MAX/2, usize::MAX-1, usize::MAX)); \
+               a large structured stratum (n 500..=2000 derived from a seed: diagonal, collinear strip, lattice, two-scale clusters; ~100 stored-point queries with radii a few ulps around the distance to a near neighbour; leaf 1/16/64); \
+               point sets a few ulps apart; random bytes through case_from_bytes; plus an exhaustive stratum of all multisets over {0..3} (1-D) and subsets of the 3x3 grid (2-D). \
                Non-trivial = some query has an exact distance tie at rank k, or a stored point exactly on the radius (reduced distance bit-equal to the \
                reduced radius), or leaf size < n/4 (the trees really branch); distinct = distinct canonical JSON of the case",
         assumptions: vec![
@@ -61,6 +63,7 @@ pub fn property() -> Property {
             format!("k-nearest: as sorted lists the returned distances may exceed the true ones by {} eps (relative); for BallTree, and for KdTree under Lp (box bound through powf), additionally by {} (dim+8) eps M absolute, M = largest query-to-point distance (rounding of the sphere bound distance(q,centre) - radius)", oracle::BAND_EPS, oracle::GEO_EPS),
             format!("range: a point must be present if rd < r'(1 - {0} eps) (BallTree / KdTree-Lp: and distance < radius - the allowance above), must be absent if rd > r'(1 + {0} eps); rd == r' bit-for-bit: free but all three kinds must choose alike; other points in the band are free", oracle::BAND_EPS),
             format!("Distance functions against formulas evaluated in f64: |a-b| <= {} eps max(|a|,|b|) + min_positive; conversions round-trip within {} eps; order preservation is exact", oracle::FORMULA_EPS, oracle::BAND_EPS),
+            "exact geometry: when the reduced distance of a point equals the real number (checked with integer arithmetic on coordinates that are multiples of 2^-20; L1/L2/Linf) no band and no allowance applies to it: rd < r' means the point IS strictly inside (r' is the nearest float to the real reduced radius and rd is a float), so every kind must return it; rd > r' must be absent; k-nearest distances must then be equal, not close".into(),
             "malformed input (0 columns, leaf size 0, query length != dim) must give Err from build / both query kinds; a panic or an answer is a failure".into(),
         ],
         subs: vec![
